@@ -45,25 +45,68 @@ let op_of_token (t : string) : wop =
   | ']' | ')' | '}' | ';' when tail = "" -> WClose
   | _ -> raise (Bad_token t)
 
-(* the harness pairs every opener with its own closer; a program whose closers do not match is not one the harness would execute *)
-let check_nesting (toks : string list) : unit =
-  let closer_of c = match c with 'A' -> "]" | '(' -> ")" | '{' -> "}" | 'V' -> ";" | _ -> "" in
+(* F<c> e1 ... ] : an array of fixed-size elements written with ONE dbus_message_iter_append_fixed_array call
+   (harness: open_container, append_fixed_array unless there is no element, close_container) *)
+let closer_of c = match c with 'A' | 'F' -> "]" | '(' -> ")" | '{' -> "}" | 'V' -> ";" | _ -> ""
+
+(* tokens -> operations.  Every token is one operation, except that the element tokens of an F group travel inside
+   the single WFixedMulti operation.  The harness pairs every opener with its own closer; a program whose closers do
+   not match is not one the harness would execute. *)
+let ops_of_tokens (toks : string list) : wop list =
   let stack = ref [] in
-  List.iter (fun t ->
-    match t.[0] with
-    | 'A' | '(' | '{' | 'V' -> stack := closer_of t.[0] :: !stack
-    | ']' | ')' | '}' | ';' -> (match !stack with c :: r when c = t -> stack := r | _ -> raise (Bad_token t))
-    | _ -> ()) toks;
-  if !stack <> [] then raise (Bad_token "unclosed")
+  let rec go = function
+    | [] -> if !stack <> [] then raise (Bad_token "unclosed") else []
+    | t :: r ->
+        if t = "" then raise (Bad_token t);
+        (match t.[0] with
+         | 'F' ->
+             if String.length t <> 2 then raise (Bad_token t);
+             let c = t.[1] in
+             let rec elems acc = function
+               | "]" :: r' -> (List.rev acc, r')
+               | e :: r' when e <> "" && e.[0] = c -> (match op_of_token e with WBasic v -> elems (v :: acc) r' | _ -> raise (Bad_token e))
+               | e :: _ -> raise (Bad_token e)
+               | [] -> raise (Bad_token "unclosed") in
+             let (vs, r') = elems [] r in
+             let code = n_of_int (Char.code c) in
+             (WOpen (KArray, [code]) :: (if vs = [] then [] else [WFixedMulti (code, vs)])) @ (WClose :: go r')
+         | 'A' | '(' | '{' | 'V' -> stack := closer_of t.[0] :: !stack; let op = op_of_token t in op :: go r
+         | ']' | ')' | '}' | ';' ->
+             (match !stack with c :: rs when c = t -> stack := rs | _ -> raise (Bad_token t));
+             let op = op_of_token t in op :: go r
+         | _ -> let op = op_of_token t in op :: go r) in
+  go toks
+
+(* buildargs: one dbus_message_append_args call per top-level argument: basic value, A<fixed c> e... ] (one
+   append_fixed_array call, also for no element), A<s|o|g> e... ] (append_basic per string) *)
+let args_of_tokens (toks : string list) : arg list =
+  let rec go = function
+    | [] -> []
+    | t :: r ->
+        if t = "" then raise (Bad_token t);
+        (match t.[0] with
+         | 'A' ->
+             if String.length t <> 2 then raise (Bad_token t);
+             let c = t.[1] in
+             let rec elems acc = function
+               | "]" :: r' -> (List.rev acc, r')
+               | e :: r' when e <> "" && e.[0] = c -> (match op_of_token e with WBasic v -> elems (v :: acc) r' | _ -> raise (Bad_token e))
+               | e :: _ -> raise (Bad_token e)
+               | [] -> raise (Bad_token "unclosed") in
+             let (vs, r') = elems [] r in
+             AArray (n_of_int (Char.code c), vs) :: go r'
+         | _ -> (match op_of_token t with WBasic v -> ABasic v :: go r | _ -> raise (Bad_token t))) in
+  go toks
+
+let order_of = function "le" -> true | "be" -> false | o -> raise (Bad_token o)
 
 let () =
   (* wbuild <le|be> <token>... : bytes=<body hex> sig=<signature hex>  |  fail@<k> (operation k, 0-based, returned None)
      | open@<n> (program ended with n containers open) *)
   reg "wbuild" (fun (order :: toks) ->
-    let le = (match order with "le" -> true | "be" -> false | _ -> raise (Bad_token order)) in
-    match (try check_nesting toks; Ok (List.map op_of_token toks) with Bad_token t -> Error t | Failure _ -> Error "number") with
+    match (try Ok (order_of order, ops_of_tokens toks) with Bad_token t -> Error t | Failure _ -> Error "number") with
     | Error t -> "?bad-token " ^ t
-    | Ok ops ->
+    | Ok (le, ops) ->
         let rec go st k = function
           | [] -> (match wresult st with
                    | Some (b, s) -> Printf.sprintf "bytes=%s sig=%s" (hex_of_bytes b) (hex_of_bytes s)
@@ -71,4 +114,16 @@ let () =
           | op :: r -> (match writer_step st op with
                         | Some st' -> go st' (k + 1) r
                         | None -> Printf.sprintf "fail@%d" k) in
-        go (winit le [] []) 0 ops)
+        go (winit le [] []) 0 ops);
+  (* wbuildargs <le|be> <token>... : the same program through the model of dbus_message_append_args, one call
+     (a fresh append iterator) per top-level argument: bytes=… sig=…  |  fail@<k> (call k failed) *)
+  reg "wbuildargs" (fun (order :: toks) ->
+    match (try Ok (order_of order, args_of_tokens toks) with Bad_token t -> Error t | Failure _ -> Error "number") with
+    | Error t -> "?bad-token " ^ t
+    | Ok (le, args) ->
+        let rec go body sg k = function
+          | [] -> Printf.sprintf "bytes=%s sig=%s" (hex_of_bytes body) (hex_of_bytes sg)
+          | a :: r -> (match run_writer_from le body sg (ops_of_args [a]) with
+                       | Some (b, s) -> go b s (k + 1) r
+                       | None -> Printf.sprintf "fail@%d" k) in
+        go [] [] 0 args)
